@@ -113,9 +113,9 @@ def gen_inject_scenario(rng):
         doms = [(10 + 20 * i, rng.randrange(5, 11)) for i in range(nd)]
         setup = [_dwrite(s, n, rng) for s, n in doms]
         pre = []
-        kind = rng.choice(["del_vs_write", "del_vs_write", "gc_vs_del", "write_vs_del", "del_vs_del", "gc_vs_write"])
+        kind = rng.choice(["del_vs_write", "del_vs_write", "gc_vs_del", "write_vs_del", "del_vs_del", "gc_vs_write", "gc_vs_read"])
         free_starts = [1] + [s + n + 1 for s, n in doms if n <= 8] + [10 + 20 * nd + 5]
-        if kind in ("gc_vs_del", "gc_vs_write"):
+        if kind in ("gc_vs_del", "gc_vs_write", "gc_vs_read"):
             # create tombstones first so that GC rewrites files
             i = rng.randrange(nd - 1)
             s, n = doms[i]
@@ -138,11 +138,14 @@ def gen_inject_scenario(rng):
             A, B = [{"op": "dgc"}], [{"op": "ddelete", "a": x, "b": min(x + rng.randrange(1, 4), s + n)}]
         elif kind == "gc_vs_write":
             A, B = [{"op": "dgc"}], [wr]
+        elif kind == "gc_vs_read":
+            # a reader created (and released) while a GC pass is under way; the final observation re-reads
+            A, B = [{"op": "dgc"}], [{"op": "dread"}]
         else:
             s2, n2 = doms[-1]
             A, B = [dele], [{"op": "ddelete", "a": s2 + 1, "b": s2 + 3}] if j < nd - 1 else [{"op": "dread"}]
         return {"mode": "inject", "level": "domain", "persist": rng.choice(["always", "lazy"]), "groups": 0,
-                "filecap": rng.choice([0, 0, 64]), "procs": 4, "gc": False, "setup": setup + pre, "threads": [A, B], "kind": kind}
+                "filecap": rng.choice([0, 0, 64, 24]), "procs": 4, "gc": False, "setup": setup + pre, "threads": [A, B], "kind": kind}
     # ---- cesium level
     setup = []
     doms = []
@@ -150,7 +153,8 @@ def gen_inject_scenario(rng):
         start, n, step = 100 + 1000 * i, rng.randrange(4, 11), rng.choice([1, 5, 10])
         setup.append({"op": "write", "g": 1, "start": start, "n": n, "step": step, "chunks": 1, "commits": "end"})
         doms.append((start, n, step))
-    kind = rng.choice(["gc_vs_del", "gc_vs_del", "gc_vs_del", "del_vs_write", "write_vs_del", "del_vs_del", "gc_vs_write", "del_vs_gc"])
+    kind = rng.choice(["gc_vs_del", "gc_vs_del", "gc_vs_del", "del_vs_write", "write_vs_del", "del_vs_del", "gc_vs_write", "del_vs_gc",
+                       "gc_vs_read", "gc_vs_read", "delidx_vs_write_inside", "delidxonly_vs_datawrite", "delidxonly_vs_datawrite"])
     def rdel():
         s0, n, step = rng.choice(doms)
         pts = [s0 + i * step for i in range(n)]
@@ -159,11 +163,45 @@ def gen_inject_scenario(rng):
         return {"op": "delete", "g": 1, "a": a, "b": b, "index": rng.random() < 0.25}
     wr = {"op": "write", "g": 1, "start": 100000, "n": rng.randrange(1, 6), "step": rng.choice([1, 10]),
           "chunks": rng.choice([1, 2]), "commits": rng.choice(["each", "end", "auto"])}
-    pre = [rdel()] if kind in ("gc_vs_del", "gc_vs_write", "del_vs_gc") else []
+    pre = [rdel()] if kind in ("gc_vs_del", "gc_vs_write", "del_vs_gc", "gc_vs_read") else []
+    if kind == "gc_vs_read" and rng.random() < 0.6:
+        pre.append(rdel())
+    # a DELIBERATE conflict: a delete of index+data over a range with a gap, and a writer that opens in that gap
+    # while the delete is under way (the two do not commute; the run must still equal one of the two serial orders)
+    gap_start = doms[0][0] + doms[0][1] * doms[0][2] + 50
+    inside = {"op": "write", "g": 1, "start": gap_start, "n": rng.randrange(1, 6), "step": rng.choice([1, 10]),
+              "chunks": 1, "commits": rng.choice(["each", "end", "auto"])}
+    # bounds mostly INSIDE domains, so that the delete has to resolve sample offsets through the index channel
+    # (file reads = injection points between its dependants check and its index update)
+    d0, d1 = doms[0], doms[-1] if rng.random() < 0.5 else doms[1]
+    wide = {"op": "delete", "g": 1,
+            "a": rng.choice([0, d0[0], d0[0] + d0[2] * rng.randrange(1, d0[1]), d0[0] + d0[2] * rng.randrange(1, d0[1]) + rng.choice([0, 1])]),
+            "b": rng.choice([d1[0], d1[0] + d1[2] * rng.randrange(1, d1[1]), d1[0] + d1[2] * rng.randrange(1, d1[1]) + 1, 90000]),
+            "index": True}
     A, B = {"gc_vs_del": ([{"op": "gc"}], [rdel()]), "del_vs_write": ([rdel()], [wr]), "write_vs_del": ([wr], [rdel()]),
-            "del_vs_del": ([rdel()], [rdel()]), "gc_vs_write": ([{"op": "gc"}], [wr]), "del_vs_gc": ([rdel()], [{"op": "gc"}])}[kind]
+            "del_vs_del": ([rdel()], [rdel()]), "gc_vs_write": ([{"op": "gc"}], [wr]), "del_vs_gc": ([rdel()], [{"op": "gc"}]),
+            "gc_vs_read": ([{"op": "gc"}], [{"op": rng.choice(["read", "iterate"]), "g": 1, "a": 0, "b": 10 ** 9, "step": 10}]),
+            "delidx_vs_write_inside": ([wide], [inside]), "delidxonly_vs_datawrite": ([], [])}[kind]
+    if kind == "delidxonly_vs_datawrite":
+        # another deliberate conflict: timestamps exist on the index channel only; one thread deletes a part of them
+        # (index channel only), the other writes data for them (data channel only). Serially exactly one of the two
+        # succeeds; both succeeding, or a result that matches neither order, is a violation.
+        n, step = rng.randrange(4, 11), rng.choice([1, 5, 10])
+        s0 = 50000
+        setup2 = setup + [{"op": "write", "g": 1, "start": s0, "n": n, "step": step, "chunks": 1, "commits": "end", "only": "index"}]
+        k0 = rng.randrange(0, n - 1)
+        a = s0 + k0 * step + rng.choice([0, 0, 1 if step > 1 else 0])
+        b = rng.choice([s0 + n * step, s0 + n * step + 7, s0 + rng.randrange(k0 + 1, n) * step + 1])
+        A = [{"op": "delete", "g": 1, "a": a, "b": b, "index": True, "only": "index"}]
+        # one frame, one commit: the writer's lifetime is then atomic (a writer that commits several times and fails
+        # half-way has taken partial effect although it "reported failure")
+        B = [{"op": "write", "g": 1, "start": s0, "n": n, "step": step, "chunks": 1, "commits": "end", "only": "data"}]
+        if rng.random() < 0.5:
+            A, B = B, A
+        return {"mode": "inject", "level": "cesium", "persist": rng.choice(["always", "lazy"]), "groups": 1,
+                "filecap": 0, "procs": 4, "gc": False, "setup": setup2, "threads": [A, B], "kind": kind}
     return {"mode": "inject", "level": "cesium", "persist": rng.choice(["always", "lazy"]), "groups": 1,
-            "filecap": rng.choice([0, 0, 160]), "procs": 4, "gc": False, "setup": setup + pre, "threads": [A, B], "kind": kind}
+            "filecap": rng.choice([0, 0, 160, 80]), "procs": 4, "gc": False, "setup": setup + pre, "threads": [A, B], "kind": kind}
 
 
 def gen_inject_cases(rng, nscen, per):
@@ -171,7 +209,7 @@ def gen_inject_cases(rng, nscen, per):
     for _ in range(nscen):
         sc = gen_inject_scenario(rng)
         base = per
-        if sc["kind"].startswith("gc_"):
+        if sc["kind"].startswith("gc_") or sc["kind"] in CONFLICT_KINDS:
             per = base * 5 // 2      # a GC pass has ~45 I/O points at the cesium level
         off = rng.random() / per
         for j in range(per):
@@ -201,7 +239,10 @@ def c_action(o):
         return "PDelete 5000 %s %s" % (cZ(o["a"]), cZ(o["b"]))
     if k == "write":
         st = [o["start"] + i * o["step"] for i in range(o["n"])]
-        return "Write %s %s" % (cZ(o["g"]), clist([cZ(s) for s in st]))
+        ctor = {"index": "WriteIdx", "data": "WriteData"}.get(o.get("only"), "Write")
+        return "%s %s %s" % (ctor, cZ(o["g"]), clist([cZ(s) for s in st]))
+    if k == "delete" and o.get("only") == "index":
+        return "DeleteIdx %s %s %s" % (cZ(o["g"]), cZ(o["a"]), cZ(o["b"]))
     if k == "delete":
         return "Delete %s %s %s %s" % (cZ(o["g"]), cZ(o["a"]), cZ(o["b"]), cbool(o.get("index", False)))
     if k == "create":
@@ -238,6 +279,9 @@ def run_bad(o):
     return False
 
 
+CONFLICT_KINDS = ("delidx_vs_write_inside", "delidxonly_vs_datawrite")
+
+
 def to_coq(case, r):
     conc, ser = r["conc"], r["serial"]
     threads = []
@@ -245,16 +289,19 @@ def to_coq(case, r):
         outs = (conc.get("outcomes") or [[]] * len(case["threads"]))[ti] if conc.get("outcomes") else []
         acts = [c_action(o) for oi, o in enumerate(th) if oi < len(outs) and outs[oi] == "ok"]
         threads.append(clist(acts))
+    order = r.get("order") or list(range(len(threads)))
+    if sorted(order) == list(range(len(threads))):
+        threads = [threads[i] for i in order]
     bad = run_bad(conc) or run_bad(ser)
     # (an op that succeeded concurrently but fails in THIS serial order is not by itself a violation:
     #  the property asks for SOME serial order; only a difference in readable content is flagged)
-    return "(Case %s %s %s %s %s %s %s %s)" % (
+    return "(Case %s %s %s %s %s %s %s %s %s)" % (
         clist([cZ(g) for g in range(1, case["groups"] + 1)]),
         clist((["Create 5000"] if case.get("level") == "domain" else []) +
               [c_action(o) for o, res in zip(case["setup"], conc.get("setup") or []) if res == "ok"]),
         clist(threads),
         c_obs(conc.get("mem")), c_obs(conc.get("reopen")), c_obs(ser.get("mem")), c_obs(ser.get("reopen")),
-        cbool(bad))
+        cbool(bad), cbool(case.get("kind") not in CONFLICT_KINDS))
 
 
 def nontrivial(case, r):
@@ -329,7 +376,7 @@ def _race_one(binp, case):
     env = dict(os.environ)
     env["GORACE"] = "halt_on_error=1 exitcode=66"
     try:
-        p = subprocess.run([binp], input=json.dumps(case) + "\n", capture_output=True, text=True, timeout=240, env=env)
+        p = subprocess.run([binp], input=json.dumps(case) + "\n", capture_output=True, text=True, timeout=400, env=env)
     except subprocess.TimeoutExpired:
         return case, {"stall": True}, "timeout"
     return case, p.returncode, p.stderr
@@ -355,7 +402,7 @@ def extra(ctx):
         c["procs"] = [2, 4, 8, 1][i % 4]
         c["id"] = i
         cases.append(c)
-    races, stalls = 0, 0
+    races, stalls, transient = 0, 0, 0
     reported = set()
     with cf.ThreadPoolExecutor(max_workers=6) as ex:
         for case, rc, err in ex.map(lambda c: _race_one(binp, c), cases):
@@ -369,12 +416,28 @@ def extra(ctx):
                 chk.report_case_violation(ctx, case, {"race": err[:6000], "race_files": files[:6]},
                                           "Go race detector reports a data race in cesium")
             elif rc == "timeout" or (isinstance(rc, dict) and rc.get("stall")) or (isinstance(err, str) and "STALL case" in err):
-                stalls += 1
-                chk.report_case_violation(ctx, case, {"stall": True, "stderr": (err or "")[:6000] if isinstance(err, str) else ""},
-                                          "concurrent run stalled (possible deadlock)")
+                # a stall under the race detector on a loaded machine may be slowness: it counts only if the same
+                # case stalls again when re-run alone (a schedule-dependent deadlock may escape this, a false alarm may not)
+                again = 0
+                last_err = err if isinstance(err, str) else ""
+                for _ in range(2):
+                    _, rc2, err2 = _race_one(binp, case)
+                    if rc2 == "timeout" or (isinstance(rc2, dict) and rc2.get("stall")) or (isinstance(err2, str) and "STALL case" in err2):
+                        again += 1
+                        last_err = err2 if isinstance(err2, str) else last_err
+                if again >= 1:
+                    stalls += 1
+                    dump = os.path.join(vlib.BUILD, "c09_stall_%s.txt" % vlib.chash(case))
+                    with open(dump, "w") as fh:
+                        fh.write(last_err)
+                    chk.report_case_violation(ctx, case, {"stall": True, "stderr": last_err[:6000], "full_dump": dump},
+                                              "concurrent run stalled repeatedly (possible deadlock)")
+                else:
+                    transient += 1
     ctx.extra_cov["race_detector_cases"] = n
     ctx.extra_cov["race_reports"] = races
     ctx.extra_cov["stalls"] = stalls
+    ctx.extra_cov["transient_stalls_not_reproduced"] = transient
 
 
 READY = True
